@@ -1,4 +1,5 @@
 import TakVerif.Impl.FPATotal
+import TakVerif.Impl.BotCompose
 import TakVerif.Proofs.Glue
 
 /-! Lemmas about the declining scripts (`Impl/FPATotal.lean`, `fixes/C07-fpa-script-decline.diff`):
@@ -166,4 +167,120 @@ theorem friendlyD_fst_of_check {fpa f' : Option (Variant × Rule)} {g : GameRec}
             | error e => rw [h3] at h; cases h
             | ok w => rw [h3] at h; cases h; exact ⟨_, rfl⟩
 
+/-- **where the two calls differ**: a call with the declining scripts that returns `(f', a)` is the call before the patch
+returning the same, or the call before the patch panicked INSIDE THE SCRIPT (first block passed without a rejection, the
+bot is to move) and the new call asks the searching player -/
+theorem friendlyD_ok_cases {fpa f' : Option (Variant × Rule)} {g : GameRec} {p : Pos} {o : CheckOracle} {a : Action}
+    (h : Tak.Glue.friendlyGetMoveD fpa g p o = .ok (f', a)) :
+    Tak.Glue.friendlyGetMove fpa g p o = .ok (f', a) ∨
+    (∃ e lim fl, Tak.Glue.friendlyGetMove fpa g p o = .error e ∧ a = .think lim fl ∧
+      fpaCheck fpa g p = .ok (f', none) ∧ p.toMove = g.color ∧ fpaScript f' p = .error e) := by
+  rw [friendlyD_cases] at h
+  rw [friendly_cases]
+  cases h1 : fpaCheck fpa g p with
+  | error e => rw [h1] at h; cases h
+  | ok v =>
+    obtain ⟨f1, rej⟩ := v
+    rw [h1] at h
+    cases rej with
+    | some msg => exact .inl h
+    | none =>
+      simp only at h ⊢
+      by_cases ht : p.toMove ≠ g.color
+      · rw [if_pos ht] at h ⊢; exact .inl h
+      · rw [if_neg ht] at h ⊢
+        have hto : p.toMove = g.color := Classical.not_not.mp ht
+        cases h2 : fpaScript f1 p with
+        | ok sm => rw [fpaScriptD_of_ok h2] at h; exact .inl h
+        | error e =>
+          have hD : fpaScriptD f1 p = .ok none := by
+            cases f1 with
+            | none => cases h2
+            | some vr =>
+              rcases getMoveD_cases vr.1 vr.2 (viewOfPos p) with ⟨y, hy, _⟩ | ⟨e', _, hd⟩
+              · have : fpaScript (some vr) p = .ok y := hy
+                rw [this] at h2; cases h2
+              · exact hd
+          rw [hD] at h
+          simp only at h
+          cases h3 : waitUndo g o with
+          | error e3 => rw [h3] at h; cases h
+          | ok w =>
+            rw [h3] at h
+            injection h with h
+            obtain ⟨hf, ha⟩ := Prod.mk.inj h
+            subst hf
+            exact .inr ⟨e, _, _, rfl, ha.symm, rfl, hto, h2⟩
+
+/-- a resignation is decided by the first block alone: the same iff as `C20.friendly_resigns_iff_rule_rejects` -/
+theorem friendlyD_resign_of_check {fpa f' : Option (Variant × Rule)} {g : GameRec} {p : Pos} {o : CheckOracle} {a : Action}
+    (h : Tak.Glue.friendlyGetMoveD fpa g p o = .ok (f', a)) (msg : Msg) (ha : a = .resign msg) :
+    Tak.Glue.friendlyGetMove fpa g p o = .ok (f', a) := by
+  rcases friendlyD_ok_cases h with h1 | ⟨_, _, _, _, h2, _⟩
+  · exact h1
+  · rw [ha] at h2; cases h2
+
 end Tak.Glue
+
+namespace Tak.Compose
+open Tak Tak.FPA Tak.Glue
+
+theorem friendlyOf_of_ok (c : Conf) {fpa : Option (Variant × Rule)} {g : GameRec} {p : Pos} {o : CheckOracle}
+    {x : Option (Variant × Rule) × Action} (h : Tak.Glue.friendlyGetMove fpa g p o = .ok x) :
+    friendlyOf c fpa g p o = .ok x := by
+  unfold friendlyOf
+  split
+  · exact friendlyD_of_ok h
+  · exact h
+
+theorem friendlyOf_ok_cases (c : Conf) {fpa f' : Option (Variant × Rule)} {g : GameRec} {p : Pos} {o : CheckOracle}
+    {a : Action} (h : friendlyOf c fpa g p o = .ok (f', a)) :
+    Tak.Glue.friendlyGetMove fpa g p o = .ok (f', a) ∨
+    (c.decline = true ∧ ∃ e lim fl, Tak.Glue.friendlyGetMove fpa g p o = .error e ∧ a = .think lim fl ∧
+      fpaCheck fpa g p = .ok (f', none) ∧ p.toMove = g.color ∧ fpaScript f' p = .error e) := by
+  unfold friendlyOf at h
+  split at h
+  · rename_i hd
+    rcases friendlyD_ok_cases h with h1 | h2
+    · exact .inl h1
+    · exact .inr ⟨hd, h2⟩
+  · exact .inl h
+
+theorem friendlyOf_congr (c : Conf) {fpa fpa2 : Option (Variant × Rule)} {g : GameRec} {p : Pos} (o : CheckOracle)
+    (h : fpaCheck fpa g p = fpaCheck fpa2 g p) : friendlyOf c fpa g p o = friendlyOf c fpa2 g p o := by
+  unfold friendlyOf
+  split
+  · exact friendlyD_congr o h
+  · rw [friendly_cases, friendly_cases, h]
+
+theorem friendlyOf_check (c : Conf) {fpa f' : Option (Variant × Rule)} {g : GameRec} {p : Pos} {o : CheckOracle} {a : Action}
+    (h : friendlyOf c fpa g p o = .ok (f', a)) : ∃ rej, fpaCheck fpa g p = .ok (f', rej) := by
+  unfold friendlyOf at h
+  split at h
+  · exact friendlyD_fst_of_check h
+  · rw [friendly_cases] at h
+    cases h1 : fpaCheck fpa g p with
+    | error e => rw [h1] at h; cases h
+    | ok v =>
+      obtain ⟨f1, rej⟩ := v
+      rw [h1] at h
+      cases rej with
+      | some msg => simp only at h; cases h; exact ⟨_, rfl⟩
+      | none =>
+        simp only at h
+        by_cases ht : p.toMove ≠ g.color
+        · rw [if_pos ht] at h; cases h; exact ⟨_, rfl⟩
+        · rw [if_neg ht] at h
+          cases h2 : fpaScript f1 p with
+          | error e => rw [h2] at h; cases h
+          | ok sm =>
+            rw [h2] at h
+            cases sm with
+            | some m => cases h; exact ⟨_, rfl⟩
+            | none =>
+              simp only at h
+              cases h3 : waitUndo g o with
+              | error e => rw [h3] at h; cases h
+              | ok w => rw [h3] at h; cases h; exact ⟨_, rfl⟩
+
+end Tak.Compose
